@@ -15,7 +15,7 @@ import (
 func init() {
 	ev.Register(&ev.Spec{
 		ID: "C14", Level: "exploration",
-		Rule: "request A (read, write, getattr, 3-component walk parked at component 1/2/3, create, unlinkat, renameat parked in RenameAt and in Renamed, xattrwalk, clunk parked in Close) is parked inside the backend together with an unrelated request B; every order of {send Tflush(A), release A, release B, other traffic} (24 scripts per A kind), plus two flushes of one tag and flush chains; arrival of every reply and enter/exit of every backend call are stamped on one logical clock: an Rflush for A must be later than the exit of every call made on A's behalf and no such call may begin after it; flushes of idle, answered and own tags must be answered while B is still parked; A gets exactly one reply. Non-trivial: the flush was sent while A was parked; distinct by (A kind, script).",
+		Rule:    "request A (read, write, getattr, 3-component walk parked at component 1/2/3, create, unlinkat, renameat parked in RenameAt and in Renamed, xattrwalk, clunk parked in Close) is parked inside the backend together with an unrelated request B; every order of {send Tflush(A), release A, release B, other traffic} (24 scripts per A kind), plus two flushes of one tag and flush chains; arrival of every reply and enter/exit of every backend call are stamped on one logical clock: an Rflush for A must be later than the exit of every call made on A's behalf and no such call may begin after it; flushes of idle, answered and own tags must be answered while B is still parked; A gets exactly one reply. Non-trivial: the flush was sent while A was parked; distinct by (A kind, script).",
 		Assume:  []string{"calls are attributed to A by construction (A alone touches its names)", "reply stamps are taken when the peer parsed the frame, i.e. never earlier than the send"},
 		Shards:  shards(8, 16),
 		Timeout: timeout(8*time.Minute, 45*time.Minute),
@@ -67,7 +67,9 @@ func c14Kinds() []c14kind {
 	for k, nm := range []string{"a", "b", "f"} {
 		nm := nm
 		ks = append(ks, c14kind{fmt.Sprintf("walk3@component%d", k+1), memfs.Match{Method: "Walk", Name: nm}, func(cc *concConn) (uint64, bool) { return 0, true },
-			func(p *rawpeer.Peer, tag uint16, fid uint64) { p.Send(wire.Twalk, tag, u(0), u(960), []string{"a", "b", "f"}) }, underA})
+			func(p *rawpeer.Peer, tag uint16, fid uint64) {
+				p.Send(wire.Twalk, tag, u(0), u(960), []string{"a", "b", "f"})
+			}, underA})
 	}
 	return ks
 }
